@@ -213,7 +213,7 @@ Section Sig.
     rewrite Hm. cbn [negb].
     destruct (Z.leb_spec v 0); [lia|]. destruct (Z.leb_spec (pk_N pk) v); [lia|]. cbn [orb].
     rewrite Hlhs. cbn [bind]. rewrite Hv0. cbn [bind]. rewrite Hbs. cbn [bind].
-    destruct (Z.leb_spec e (two (le CS - 1))); [lia|].
+    destruct (Z.leb_spec e (two (le CS - 1))); [lia|]. destruct (Z.leb_spec (two (le CS)) e); [lia|]. cbn [orb].
     fold X. rewrite rem_mod_nonneg by lia. rewrite Z.eqb_refl. reflexivity.
   Qed.
 
@@ -257,7 +257,7 @@ Section Sig.
   (* ---- an accepted signature has an exponent of the configured length and satisfies the verification equation *)
   Theorem verify_multiattr_accepts sg pk bases msgs :
     verify_multiattr CS sg pk bases msgs = Ok true ->
-    two (le CS - 1) < s_e sg /\ 0 < s_v sg < pk_N pk /\ forallb (msg_in_range CS) msgs = true /\
+    two (le CS - 1) < s_e sg < two (le CS) /\ 0 < s_v sg < pk_N pk /\ forallb (msg_in_range CS) msgs = true /\
     exists lhs r0 bs, pow_mod (s_v sg) (s_e sg) (pk_N pk) = Ok lhs /\ prod_pows bases msgs (pk_N pk) 1 = Ok r0 /\
       pow_mod (pk_b pk) (s_s sg) (pk_N pk) = Ok bs /\ lhs = Z.rem (r0 * bs * pk_c pk) (pk_N pk).
   Proof.
@@ -268,7 +268,7 @@ Section Sig.
     destruct (pow_mod (s_v sg) (s_e sg) (pk_N pk)) as [lhs| | |]; cbn [bind]; try discriminate.
     destruct (prod_pows bases msgs (pk_N pk) 1) as [r0| | |]; cbn [bind]; try discriminate.
     destruct (pow_mod (pk_b pk) (s_s sg) (pk_N pk)) as [bs| | |]; cbn [bind]; try discriminate.
-    destruct (Z.leb_spec (s_e sg) (two (le CS - 1))); [discriminate|].
+    destruct (Z.leb_spec (s_e sg) (two (le CS - 1))); [discriminate|]. destruct (Z.leb_spec (two (le CS)) (s_e sg)); [discriminate|]. cbn [orb].
     intros Hacc. inversion Hacc as [Heq]. apply Z.eqb_eq in Heq.
     repeat split; try lia. exists lhs, r0, bs. auto.
   Qed.
